@@ -30,7 +30,7 @@ LEVEL_TEXT = ('Every monitored call must leave the deep encoding of its state ar
 LEVEL_NOTE = ('Trusted: enc.es deep encoding and the scrambler. Observations sharing (immutable-use) cell objects with their state is '
               'allowed; only containers are required to be fresh.')
 SHARDS = {'quick': 4, 'thorough': 16}
-BUDGET_S = {'quick': 60, 'thorough': 600}
+BUDGET_S = {'quick': 300, 'thorough': 2400}
 RULE = ('case = (environment or component, state, action) with its scramble / re-ask experiments. non-trivial = the state holds '
         'at least one mutable object (door, box, coloured object) or a held item; distinct by (component, deep state encoding, action).')
 ASSUMPTIONS = ['identity scans are diagnostics; the verdict is behavioural (a mutation on one side visible on the other)']
